@@ -22,6 +22,9 @@ func init() {
 			guard(rep, "WAL-RELEASE-ON-FREE", func() { ruleWALRELEASEONFREE(p, rep) })
 			guard(rep, "PAGE-BOUNDS", func() { rulePAGEBOUNDS(p, rep) })
 			guard(rep, "SETBYTES-BOUND", func() { ruleSETBYTESBOUND(p, rep) })
+			guard(rep, "LOCKSET", func() { ruleLOCKSET(p, rep) })
+			guard(rep, "ERRDISC", func() { ruleERRDISC(p, rep, "", false) })
+			guard(rep, "ERRDISC", func() { ruleERRDISC(p, rep, "pq", false) })
 		},
 	})
 	register(&propertyDef{
